@@ -338,6 +338,10 @@ func gen(g *lp.Gen) {
 			genConn(g)
 			continue
 		}
+		if g.Chance(1, 7) {
+			genWS(g)
+			continue
+		}
 		genResp(g, tr, lg)
 	}
 }
